@@ -196,6 +196,18 @@ namespace
         return r;
     }
 
+    // A source path of the code under test, wherever the tree was checked out (the library cache is keyed by
+    // the tree's content: a library built from a scratch worktree carries that worktree's paths, and an
+    // identical tree built later elsewhere reuses it).  The harness's own sources have no such component.
+    bool has_pistache_frame(const std::string& text)
+    {
+        static const char* parts[] = { "/include/pistache/", "/src/common/", "/src/server/", "/src/client/" };
+        for (auto p : parts)
+            if (text.find(p) != std::string::npos)
+                return true;
+        return false;
+    }
+
     // ThreadSanitizer reports written since `from` that have a frame in pistache sources
     std::string tsan_reports(size_t& from)
     {
@@ -214,7 +226,7 @@ namespace
         {
             size_t end = fresh.find("==================", pos);
             std::string block = fresh.substr(pos, end == std::string::npos ? std::string::npos : end - pos);
-            if (block.find("/repo/src/") != std::string::npos || block.find("/repo/include/pistache/") != std::string::npos)
+            if (has_pistache_frame(block))
             {
                 // keep every line, but cut the template-heavy frame names so that both stacks stay readable
                 std::string compact, line;
@@ -257,7 +269,7 @@ namespace
         {
             size_t eol  = block.find('\n', pos);
             std::string line = block.substr(pos, eol == std::string::npos ? std::string::npos : eol - pos);
-            if (line.find("/repo/") != std::string::npos)
+            if (has_pistache_frame(line))
             {
                 std::string fn = line.substr(0, line.find('('));
                 if (frames.find(fn) == std::string::npos)
